@@ -13,7 +13,10 @@ import miros.thread_safe_attributes as tsa
 PID = "C27"
 STMTS = {"read": "x = o.a", "set5": "o.a = 5", "set9": "o.a = 9", "inc": "o.a += 1", "dec": "o.a -= 1", "inc3": "o.a += 3",
          # a second instance of the same class (its value starts at 7): the descriptor is shared, the values are not
-         "read2": "x = o2.a", "set2_8": "o2.a = 8", "inc2": "o2.a += 1"}
+         "read2": "x = o2.a", "set2_8": "o2.a = 8", "inc2": "o2.a += 1",
+         # a second attribute of the same object (starts at 3); an augmented assignment whose right-hand side reads the other
+         "readb": "x = o.b", "setb4": "o.b = 4", "incb": "o.b += 1", "mix": "o.a += o.b", "mixb": "o.b += o.a",
+         "two": "o.a += 1; o.b += 1"}
 _mod = [None]
 
 
@@ -34,10 +37,16 @@ def statements_module():
     return _mod[0]
 
 
-def serial_results(threads, init=0, which=1, reads=None):
-    """final values of all serial orders of the statements on instance `which` (threads keep their own order); if
-    `reads` is a set, every value the instance holds at some point of some serial order is added to it"""
-    threads = [[st for st in t if (("2" in st.split("_")[0][-1:]) == (which == 2))] for t in threads]
+INIT = {"a": 0, "b": 3, "a2": 7}
+
+
+class _Plain:
+    pass
+
+
+def serial_outcomes(threads):
+    """reference model: the same source statements run on plain objects in every serial order (threads keep their
+    own order).  Returns (set of final (a, b, a2), {variable: values it holds at some point of some serial order})"""
     seqs = set()
 
     def merge(rest, acc):
@@ -48,24 +57,22 @@ def serial_results(threads, init=0, which=1, reads=None):
             if r:
                 merge([x[1:] if j == i else x for j, x in enumerate(rest)], acc + [r[0]])
     merge([list(t) for t in threads], [])
-    out = set()
-    for s in seqs:
-        v = init
-        if reads is not None:
-            reads.add(v)
-        for st in s:
-            if st.startswith("set"):
-                v = int(st.split("_")[1]) if "_" in st else int(st[3:])
-            elif st in ("inc", "inc2"):
-                v += 1
-            elif st == "dec":
-                v -= 1
-            elif st == "inc3":
-                v += 3
-            if reads is not None:
-                reads.add(v)
-        out.add(v)
-    return out
+    finals, holds = set(), {k: {v} for k, v in INIT.items()}
+    for seq in seqs:
+        o, o2 = _Plain(), _Plain()
+        o.a, o.b, o2.a = INIT["a"], INIT["b"], INIT["a2"]
+        for st in seq:
+            exec(STMTS[st], {"o": o, "o2": o2})
+            holds["a"].add(o.a)
+            holds["b"].add(o.b)
+            holds["a2"].add(o2.a)
+        finals.add((o.a, o.b, o2.a))
+    return finals, holds
+
+
+def read_var(st):
+    src = STMTS[st]
+    return "a2" if "o2.a" in src else ("b" if "o.b" in src else "a")
 
 
 class Attr:
@@ -85,16 +92,23 @@ class Attr:
 
     def body(self, s, p):
         m = statements_module()
-        K = tsa.MetaThreadSafeAttributes("K27", (), {"_attributes": ["a"]})   # descriptor lock is created under the stand-ins
+        aoenv.reset_containers()
+        K = tsa.MetaThreadSafeAttributes("K27", (), {"_attributes": ["a", "b"]})   # descriptor locks are created under the stand-ins
         o = K()
         o2 = K()
-        o2.a = 7
+        o2.a = INIT["a2"]
+        o.b = INIT["b"]
         errors = {}
         finished = []
         reads = []
-        desc = K.__dict__["a"]
-        s.fingerprint = lambda: (o.__dict__.get(getattr(desc, "_key", ""), getattr(desc, "_value", None)),
-                                 getattr(desc._lock, "held_by", lambda: None)())
+        desc, descb = K.__dict__["a"], K.__dict__["b"]
+
+        def raw(d, inst):
+            return inst.__dict__.get(getattr(d, "_key", ""), getattr(d, "_value", None))
+
+        def holder(d):
+            return getattr(d._lock, "held_by", lambda: None)()
+        s.fingerprint = lambda: (raw(desc, o), raw(descb, o), raw(desc, o2), holder(desc), holder(descb))
         s.open_window()
 
         def worker(i, stmts):
@@ -110,18 +124,15 @@ class Attr:
         for i, stmts in enumerate(p["threads"]):
             sched.CThread(target=worker, args=(i, stmts), name="w%d" % i).start()
         s.settle()
-        lock = desc._lock
-        held = lock.held_by() if hasattr(lock, "held_by") else None
-        if held is None:
-            # nobody holds the lock: ask the attribute itself what the instances hold now
-            final, final2r = m.s_read(o, o2), m.s_read2(o, o2)
+        held = [h for h in (holder(desc), holder(descb)) if h is not None]
+        if not held:
+            # nobody holds a lock: ask the attributes themselves what the instances hold now
+            final = (m.s_read(o, o2), m.s_readb(o, o2), m.s_read2(o, o2))
         else:
-            final = o.__dict__.get(getattr(desc, "_key", ""), getattr(desc, "_value", None))
-            final2r = None
-        if final is None:
-            final = 0
-        final2 = final2r if final2r is not None else o2.__dict__.get(getattr(desc, "_key", ""), getattr(desc, "_value", None))
-        return {"final": final, "final2": final2, "reads": reads, "errors": errors, "finished": sorted(finished), "lock_held_by": held}
+            final = (raw(desc, o), raw(descb, o), raw(desc, o2))
+        final = tuple(0 if v is None else v for v in final)
+        return {"final": final, "reads": reads, "errors": errors, "finished": sorted(finished),
+                "lock_held_by": held[0] if held else None, "holders": [holder(desc), holder(descb)]}
 
     def on_abort(self, s, p):
         return {"threads": [x for x in s.snapshot if not x[2]]}
@@ -135,22 +146,32 @@ class Attr:
             first = sorted(o["errors"].items())[0][1][0]
             out.append(("C27/exception/%s" % first.split(" ")[0], "statements %r: %r" % (p["threads"], o["errors"])))
         if o["finished"] != list(range(len(p["threads"]))):
-            out.append(("C27/thread-stuck", "finished=%r" % (o["finished"],)))
-        ok = serial_results(p["threads"])
-        if not o["errors"] and o["final"] not in ok:
-            out.append(("C27/not-serialisable", "statements %r ended with a=%r; serial executions give %r" % (p["threads"], o["final"], sorted(ok))))
-        ok2 = serial_results(p["threads"], init=7, which=2)
-        if not o["errors"] and o["final2"] not in ok2:
-            out.append(("C27/other-instance", "statements %r left the second instance with a=%r; serial executions give %r" % (
-                p["threads"], o["final2"], sorted(ok2))))
-        poss1, poss2 = set(), set()
-        serial_results(p["threads"], reads=poss1)
-        serial_results(p["threads"], init=7, which=2, reads=poss2)
+            ha, hb = o["holders"]
+            flat = [st for t in p["threads"] for st in t]
+            if ha is not None and hb is not None and ha != hb and "mix" in flat and "mixb" in flat:
+                # each thread keeps the lock of the attribute it augments and waits for the other attribute's lock
+                return [("C27/thread-stuck/two-attributes-each-augmented-with-the-other",
+                         "statements %r: one thread holds the lock of attribute a and waits for b's, the other holds b's and waits "
+                         "for a's (holders %r); finished=%r" % (p["threads"], o["holders"], o["finished"]))]
+            out.append(("C27/thread-stuck", "statements %r: finished=%r, lock holders %r" % (p["threads"], o["finished"], o["holders"])))
+        finals, holds = serial_outcomes(p["threads"])
+        if not o["errors"] and tuple(o["final"]) not in finals:
+            fa, fb, f2 = o["final"]
+            if fa not in {f[0] for f in finals} or fb not in {f[1] for f in finals}:
+                out.append(("C27/not-serialisable", "statements %r ended with (a, b)=%r; serial executions give %r" % (
+                    p["threads"], (fa, fb), sorted({f[:2] for f in finals}))))
+            elif f2 not in {f[2] for f in finals}:
+                out.append(("C27/other-instance", "statements %r left the second instance with a=%r; serial executions give %r" % (
+                    p["threads"], f2, sorted({f[2] for f in finals}))))
+            else:
+                out.append(("C27/not-serialisable/jointly", "statements %r ended with (a, b, other a)=%r; serial executions give %r" % (
+                    p["threads"], tuple(o["final"]), sorted(finals))))
         for st, r in o["reads"]:
-            if r not in (poss2 if st == "read2" else poss1):
-                out.append(("C27/read-value/%s" % ("other-instance" if st == "read2" else "same-instance"),
-                            "statements %r: %r returned %r, the instance only ever holds %r" % (
-                                p["threads"], STMTS[st], r, sorted(poss2 if st == "read2" else poss1))))
+            var = read_var(st)
+            if r not in holds[var]:
+                out.append(("C27/read-value/%s" % ("other-instance" if var == "a2" else ("same-instance" if var == "a" else "other-attribute")),
+                            "statements %r: %r returned %r, the attribute only ever holds %r" % (
+                                p["threads"], STMTS[st], r, sorted(holds[var]))))
         if o["lock_held_by"] is not None:
             out.append(("C27/lock-left-held", "after all threads finished the lock is still held by thread %r" % o["lock_held_by"]))
         return out
@@ -169,6 +190,13 @@ def params(tier):
     ps.append({"threads": [["read", "inc"], ["inc2", "read2"]]})
     ps.append({"threads": [["set5", "read"], ["set2_8", "read2"]]})
     ps.append({"threads": [["inc", "inc"], ["dec", "set9"]]})
+    # two attributes of one object: an augmented assignment that reads the other attribute, then other threads use that one
+    ps.append({"threads": [["mix"], ["incb"]]})
+    ps.append({"threads": [["mix", "readb"], ["setb4"]]})
+    ps.append({"threads": [["mix"], ["readb", "incb"]]})
+    ps.append({"threads": [["two"], ["incb", "inc"]]})
+    ps.append({"threads": [["mix"], ["mix"]]})
+    ps.append({"threads": [["mix"], ["mixb"]]})
     if tier != "quick":
         ps.append({"threads": [["inc"], ["dec"], ["inc3"]]})
         ps.append({"threads": [["inc"], ["set5"], ["read"]]})
